@@ -17,6 +17,7 @@ package control
 
 import (
 	"encoding/binary"
+	"context"
 	"encoding/hex"
 	"fmt"
 	"io"
@@ -30,6 +31,7 @@ import (
 	"testing"
 	"unsafe"
 
+	"github.com/cilium/ebpf"
 	"github.com/daeuniverse/dae/common"
 	"github.com/daeuniverse/dae/common/consts"
 	"github.com/daeuniverse/dae/component/outbound/dialer"
@@ -38,6 +40,31 @@ import (
 	dnsmessage "github.com/miekg/dns"
 	"github.com/sirupsen/logrus"
 )
+
+// c19ArrayDump reads a whole ARRAY map of uint32 values (batch lookup, per-key lookups as fallback).
+func c19ArrayDump(m *ebpf.Map, n int) ([]uint32, error) {
+	vals := make([]uint32, n)
+	keys := make([]uint32, n)
+	var cursor ebpf.MapBatchCursor
+	got, err := m.BatchLookup(&cursor, keys, vals, nil)
+	if got == n {
+		out := make([]uint32, n)
+		for i := 0; i < n; i++ {
+			if int(keys[i]) < n {
+				out[keys[i]] = vals[i]
+			}
+		}
+		return out, nil
+	}
+	_ = err
+	for i := 0; i < n; i++ {
+		k := uint32(i)
+		if err := m.Lookup(&k, &vals[i]); err != nil {
+			return nil, err
+		}
+	}
+	return vals, nil
+}
 
 // c19Builder: an empty RoutingMatcherBuilder whose real add* encoders are then called directly.
 func c19Builder() *RoutingMatcherBuilder {
@@ -639,6 +666,125 @@ func TestVerifC19(t *testing.T) {
 					stats.Inc("conn")
 				}
 			}
+		}
+	}
+
+	// ---- the WRITE SITE of outbound_connectivity_map: the real closure returned by
+	// outboundAliveChangeCallback, run against a real BPF ARRAY map with the geometry declared in
+	// tproxy.c, for every outbound id x every network type; the slot it writes is read back from the map.
+	{
+		const nslots = 1536
+		m, err := ebpf.NewMap(&ebpf.MapSpec{Name: "c19_conn", Type: ebpf.Array, KeySize: 4, ValueSize: 4, MaxEntries: nslots})
+		if err != nil {
+			// no silent skip: the stream then differs from the model and the check reports it
+			stream.Emit("connwrite 0 tcp 4 unset", "cannot-create-bpf-array-map:"+err.Error())
+		} else {
+			log := logrus.New()
+			log.SetOutput(io.Discard)
+			core := &controlPlaneCore{log: log, closed: context.Background(), outboundId2Name: map[uint8]string{}}
+			core.bpf.Store(&bpfObjects{bpfMaps: bpfMaps{OutboundConnectivityMap: m}})
+			for ob := 0; ob < 256; ob++ {
+				cb := core.outboundAliveChangeCallback(uint8(ob), false)
+				for _, l4 := range l4s {
+					for _, ip := range ips {
+						for _, d := range doms {
+							nt := &dialer.NetworkType{L4Proto: l4, IpVersion: ip, UdpHealthDomain: d, IsDns: r.Bool()}
+							out := VRecover(func() string {
+								cb(true, nt, r.Bool())
+								vals, err := c19ArrayDump(m, nslots)
+								if err != nil {
+									return "dump-error:" + err.Error()
+								}
+								var hit []string
+								for k, v := range vals {
+									if v != 0 {
+										hit = append(hit, fmt.Sprint(k))
+									}
+								}
+								cb(false, nt, false) // writes 0 into the same slot again
+								if len(hit) == 0 {
+									return "nothing-written"
+								}
+								return strings.Join(hit, ",")
+							})
+							ipn := string(ip)
+							if ipn == "" {
+								ipn = "other"
+							}
+							l4n := string(l4)
+							if l4n == "x" {
+								l4n = "other"
+							}
+							stream.Emit(fmt.Sprintf("connwrite %d %s %s %s", ob, l4n, ipn, domName[d]), out)
+							fmt.Fprintf(flows, "connw %d %s %s %s %s\n", ob, l4n, ipn, domName[d], out)
+							stats.Inc("connwrite")
+						}
+					}
+				}
+			}
+			// the map must be all zero again (every write was undone through the same slot)
+			if vals, err := c19ArrayDump(m, nslots); err == nil {
+				left := 0
+				for _, v := range vals {
+					if v != 0 {
+						left++
+					}
+				}
+				stream.Emit("connwrite-residue", fmt.Sprint(left))
+			}
+			_ = m.Close()
+		}
+	}
+
+	// ---- the WRITE SITE of domain_routing_map (real variant: BpfMapBatchUpdate is production code):
+	// domainRoutingTracker.syncOwner on a real HASH map; the entry must be found under the 16 address
+	// bytes in network order, which is the key the kernel looks up (memcpy of the destination).
+	if real {
+		m, err := ebpf.NewMap(&ebpf.MapSpec{Name: "c19_dom", Type: ebpf.Hash, KeySize: 16, ValueSize: uint32(unsafe.Sizeof(bpfDomainRouting{})), MaxEntries: 4096})
+		if err != nil {
+			stream.Emit("domsync 4:01020304", "cannot-create-bpf-hash-map:"+err.Error())
+		} else {
+			tr := newDomainRoutingTracker()
+			for i := 0; i < 120*scale; i++ {
+				var a netip.Addr
+				if r.Bool() {
+					a = netip.AddrFrom4(c19V4(r))
+				} else {
+					a = netip.AddrFrom16(c19V6(r))
+				}
+				if a.IsUnspecified() {
+					continue
+				}
+				var rr dnsmessage.RR
+				if a.Is4() {
+					rr = &dnsmessage.A{Hdr: dnsmessage.RR_Header{Name: "x.", Rrtype: dnsmessage.TypeA, Class: dnsmessage.ClassINET}, A: net.IP(a.AsSlice())}
+				} else {
+					rr = &dnsmessage.AAAA{Hdr: dnsmessage.RR_Header{Name: "x.", Rrtype: dnsmessage.TypeAAAA, Class: dnsmessage.ClassINET}, AAAA: net.IP(a.AsSlice())}
+				}
+				bitmap := make([]uint32, len(bpfDomainRouting{}.Bitmap))
+				bitmap[i%len(bitmap)] = 1 << uint(i%32)
+				out := VRecover(func() string {
+					snap, err := buildDomainRoutingOwnerSnapshot(&DnsCache{DomainBitmap: bitmap, Answer: []dnsmessage.RR{rr}})
+					if err != nil {
+						return "snapshot-error:" + err.Error()
+					}
+					if err := tr.syncOwner(m, fmt.Sprintf("owner-%d", i), snap); err != nil {
+						return "sync-error:" + err.Error()
+					}
+					raw := a.As16() // what the kernel memcpy's from the packet (v4: ::ffff:a.b.c.d)
+					var val bpfDomainRouting
+					if err := m.Lookup(&raw, &val); err != nil {
+						return "not-found-under-kernel-key"
+					}
+					if val.Bitmap[i%len(bitmap)]&(1<<uint(i%32)) == 0 {
+						return "found-without-bit"
+					}
+					return "found"
+				})
+				stream.Emit("domsync "+c19AddrTok(a), out)
+				stats.Inc("domsync")
+			}
+			_ = m.Close()
 		}
 	}
 
